@@ -18,7 +18,11 @@
 
 package runtime
 
-import "github.com/onflow/cadence/interpreter"
+import (
+	"math"
+
+	"github.com/onflow/cadence/interpreter"
+)
 
 const defaultStackDepthLimit = 2000
 
@@ -34,6 +38,24 @@ func newStackDepthLimiter(stackDepthLimit uint64) *stackDepthLimiter {
 	return &stackDepthLimiter{
 		limit: stackDepthLimit,
 	}
+}
+
+// vmStackDepthLimit returns the call stack depth limit of the VM
+// which admits the same depth of nested function invocations
+// as the stack depth limiter of the interpreter environment.
+//
+// The stack depth limiter counts the function invocations made by the program,
+// i.e. it does not count the invocation of the entry point by the host,
+// whereas the call stack of the VM also holds the call frame of the entry point.
+func vmStackDepthLimit(stackDepthLimit uint64) uint64 {
+	if stackDepthLimit == 0 {
+		stackDepthLimit = defaultStackDepthLimit
+	}
+	if stackDepthLimit < math.MaxUint64 {
+		// call frame of the entry point
+		stackDepthLimit++
+	}
+	return stackDepthLimit
 }
 
 func (limiter *stackDepthLimiter) OnFunctionInvocation() {
